@@ -41,7 +41,7 @@ const (
 
 // initial entry kinds
 const (
-	kAbsent = iota
+	kAbsent      = iota
 	kRegV0       // regular c0 0644 (== desired v0)
 	kRegOther    // regular c1 0644 (content differs from v0, mode differs from v1)
 	kRegMode     // regular c0 0600 (wrong mode for v0, wrong content for v1)
@@ -53,13 +53,13 @@ const (
 
 // desired options
 const (
-	dAbsent = iota
-	dMemV0     // MemoryFileState c0 0644
-	dMemV1     // MemoryFileState c1 0600
-	dRefV0     // FileReference -> out/src0 (c0 0644)
-	dRefModeV1 // FileReferencePlusMode -> out/src1 (c1 0644) with mode 0600
-	dSymT0     // SymlinkFileState T0
-	dSymT1     // SymlinkFileState T1
+	dAbsent     = iota
+	dMemV0      // MemoryFileState c0 0644
+	dMemV1      // MemoryFileState c1 0600
+	dRefV0      // FileReference -> out/src0 (c0 0644)
+	dRefModeV1  // FileReferencePlusMode -> out/src1 (c1 0644) with mode 0600
+	dSymT0      // SymlinkFileState T0
+	dSymT1      // SymlinkFileState T1
 	dRefMissing // FileReference -> missing file (write fault)
 	nWants
 )
@@ -75,15 +75,17 @@ const glob2Name = "foo_x.conf"
 var managedAll = []string{"snap.foo.a", "snap.foo.b", "snap.foo.c"}
 
 type dirCase struct {
-	Part  string `json:"part"`
-	NMan  int    `json:"n_managed"`
-	Init  []int  `json:"init"`  // kinds: managed names..., glob2 name, unrelated name
-	Want  []int  `json:"want"`  // desired option: managed names..., glob2 name
-	Order []int  `json:"order"` // insertion order into the content map (indices into names with a desired entry)
+	Part  string    `json:"part"`
+	NMan  int       `json:"n_managed"`
+	Init  []int     `json:"init"`  // kinds: managed names..., glob2 name, unrelated name
+	Want  []int     `json:"want"`  // desired option: managed names..., glob2 name
+	Order []int     `json:"order"` // insertion order into the content map (indices into names with a desired entry)
 	Tree  *treeCase `json:"tree,omitempty"`
 }
 
-func (c dirCase) names() []string { return append(append([]string{}, managedAll[:c.NMan]...), glob2Name) }
+func (c dirCase) names() []string {
+	return append(append([]string{}, managedAll[:c.NMan]...), glob2Name)
+}
 
 func (c dirCase) key() string {
 	return fmt.Sprintf("dir:init=%v:want=%v", c.Init, c.Want)
@@ -706,8 +708,8 @@ func confirmAndReport(w *worker, rp *reporter, c dirCase, x expectation, first o
 }
 
 type dirSpace struct {
-	name                                                  string
-	nMan                                                  int
+	name                                                   string
+	nMan                                                   int
 	manKinds, manWants, glob2Kinds, glob2Wants, unrelKinds []int
 }
 
@@ -827,7 +829,7 @@ func TestC23(t *testing.T) {
 	if r.Quick() {
 		spaces = []dirSpace{{name: "2 managed names, full alphabets", nMan: 2, manKinds: seq(nKinds), manWants: seq(nWants),
 			glob2Kinds: []int{kAbsent, kRegOther, kNonEmptyDir}, glob2Wants: []int{dAbsent, dMemV0},
-			unrelKinds: []int{kRegMode, kNonEmptyDir, kSymlink}}}
+			unrelKinds: []int{kNonEmptyDir, kSymlink}}}
 	} else {
 		spaces = []dirSpace{
 			{name: "2 managed names, full alphabets, full second-glob alphabets", nMan: 2, manKinds: seq(nKinds), manWants: seq(nWants),
@@ -838,18 +840,18 @@ func TestC23(t *testing.T) {
 				glob2Kinds: []int{kAbsent, kRegOther, kNonEmptyDir}, glob2Wants: []int{dAbsent, dMemV0},
 				unrelKinds: []int{kRegMode}}}
 	}
-	var cases []dirCase
+	var cases []dirCase // all dir cases (for samples)
+	var spaceCases [][]dirCase
 	var spaceInfo []map[string]interface{}
 	for _, sp := range spaces {
-		before := len(cases)
-		sp.enumerate(func(c dirCase) { cases = append(cases, c) })
-		spaceInfo = append(spaceInfo, map[string]interface{}{"space": sp.name, "cases": len(cases) - before, "managed_kinds": len(sp.manKinds), "managed_wants": len(sp.manWants),
+		var cs []dirCase
+		sp.enumerate(func(c dirCase) { cs = append(cs, c) })
+		spaceCases = append(spaceCases, cs)
+		cases = append(cases, cs...)
+		spaceInfo = append(spaceInfo, map[string]interface{}{"space": sp.name, "cases": len(cs), "managed_kinds": len(sp.manKinds), "managed_wants": len(sp.manWants),
 			"glob2_kinds": len(sp.glob2Kinds), "glob2_wants": len(sp.glob2Wants), "unrelated_kinds": len(sp.unrelKinds)})
 	}
 
-	nw := 16
-	chunk := (len(cases) + nw*8 - 1) / (nw * 8)
-	nchunks := (len(cases) + chunk - 1) / chunk
 	var wmu sync.Mutex
 	free := []*worker{}
 	nextW := 0
@@ -868,37 +870,49 @@ func TestC23(t *testing.T) {
 	var done int64
 	var tot stats
 	var totMu sync.Mutex
-	eng.ParallelFor(nchunks, func(ci int) {
-		if r.TimeUp() {
-			r.Cap("time", "dir part stopped early")
-			return
+	var treeStats stats
+	// order of work: first dir space, tree part, remaining dir spaces (a time cap then cuts the largest space last)
+	for si, cases := range spaceCases {
+		spaceName := spaces[si].name
+		nw := 16
+		chunk := (len(cases) + nw*8 - 1) / (nw * 8)
+		nchunks := (len(cases) + chunk - 1) / chunk
+		eng.ParallelFor(nchunks, func(ci int) {
+			if r.TimeUp() {
+				r.Cap("time", "dir part stopped early in space: "+spaceName)
+				return
+			}
+			if rp.full() {
+				return
+			}
+			w := getW()
+			defer putW(w)
+			var st stats
+			lo, hi := ci*chunk, (ci+1)*chunk
+			if hi > len(cases) {
+				hi = len(cases)
+			}
+			for _, c := range cases[lo:hi] {
+				checkDirCase(w, rp, c, &st)
+			}
+			atomic.AddInt64(&done, int64(hi-lo))
+			totMu.Lock()
+			tot.runs += st.runs
+			tot.cases += st.cases
+			tot.nontrivial += st.nontrivial
+			tot.faultCases += st.faultCases
+			tot.orderTargets += st.orderTargets
+			tot.orderReached += st.orderReached
+			tot.outA += st.outA
+			tot.outB += st.outB
+			tot.outC += st.outC
+			totMu.Unlock()
+		})
+		if si == 0 {
+			// ---------------- part 2: EnsureTreeState ----------------
+			treeStats = runTreePart(r, rp, base)
 		}
-		if rp.full() {
-			return
-		}
-		w := getW()
-		defer putW(w)
-		var st stats
-		lo, hi := ci*chunk, (ci+1)*chunk
-		if hi > len(cases) {
-			hi = len(cases)
-		}
-		for _, c := range cases[lo:hi] {
-			checkDirCase(w, rp, c, &st)
-		}
-		atomic.AddInt64(&done, int64(hi-lo))
-		totMu.Lock()
-		tot.runs += st.runs
-		tot.cases += st.cases
-		tot.nontrivial += st.nontrivial
-		tot.faultCases += st.faultCases
-		tot.orderTargets += st.orderTargets
-		tot.orderReached += st.orderReached
-		tot.outA += st.outA
-		tot.outB += st.outB
-		tot.outC += st.outC
-		totMu.Unlock()
-	})
+	}
 	r.Add("dir_cases", tot.cases)
 	r.Add("dir_runs", tot.runs)
 	r.Add("dir_fault_cases", tot.faultCases)
@@ -923,9 +937,6 @@ func TestC23(t *testing.T) {
 		r.Sample(map[string]interface{}{"case": cases[len(cases)/3], "text": cases[len(cases)/3].describe()})
 		r.Sample(map[string]interface{}{"case": cases[len(cases)*2/3+7], "text": cases[len(cases)*2/3+7].describe()})
 	}
-
-	// ---------------- part 2: EnsureTreeState ----------------
-	treeStats := runTreePart(r, rp, base)
 
 	r.Add("evaluations", tot.runs+treeStats.runs)
 	r.Add("distinct_nontrivial", tot.nontrivial+treeStats.nontrivial)
